@@ -5,6 +5,18 @@ HERE = os.path.dirname(os.path.dirname(os.path.abspath(__file__)))
 PROPS = [json.loads(l) for l in open(os.path.join(HERE, 'properties.jsonl'))]
 
 CLAIMED = {
+ 'C09': dict(
+   category='proof',
+   text='Frozen gate table (192 gate inputs over three years, every other boolean input classified as non-gate): for each gate, every path of every line that reads it with the declaring answer ends in FieldNotImplemented, or a companion line raises on every compatible path and is demanded with the reader (required line of the same form, or a frozen must-read chain that is re-verified on the real read sets every run). Amount gates (Schedule B rows, HSA over-contribution, Form 1116 limit) are postconditions "no returning path is compatible with the excess". Paths come from symbolic execution of the real lines; feasibility and implications by z3.',
+   design_ref='DESIGN 4 C09',
+   note='contracts/gates.json and contracts/amount_gates.py are the oracle (seeded from the tree once, reviewed against input descriptions, frozen); C01 supplies "a demanded not-implemented line makes the solve fail"; a new boolean input must be classified (exit 3).',
+   technique='path-level postconditions on the real line functions (symbolic execution + z3) against a frozen gate table'),
+ 'C12': dict(
+   category='proof',
+   text='Contracts of TypedField.value and FloatField.value discharged on the real methods by symbolic execution with the line definition replaced by its contract (returns a symbolic value of each Python kind: None, str blank/non-blank, bool, int, float, member of the declared enum, member of another enum, list) for every field class and places in {0,2,5}: blank -> empty value, exact type or TypeError naming the line, money rounded to `places`. InputForm.__init__: every mirror line of every shipped input form has the matching class and returns exactly its input; unknown input class raises.',
+   design_ref='DESIGN 4 C12',
+   note='A-REAL (round is a nearest p-decimal), str.strip uninterpreted; "stored only via field.value" is C03; wrongly typed shipped lines are listed as information.',
+   technique='method contracts discharged by symbolic execution of the real methods + z3'),
  'C07': dict(
    category='proof',
    text='Spec function tax_y(status, x) (bracket schedules of Rev. Proc. 2020-45/2021-45/2022-38, IRS table row structure) against the real tables and the three real functions of each year: every table row is an IRS row with 4 statutory cells (ground, exact rationals, 23 k cells); the loop body of figure_tax_table is executed symbolically per row (returns float(row[col]) iff lo<=x<hi) and an invariant chain proves exactly one row matches every real x in [0,100000) so the trailing assert is unreachable; every path of figure_tax_worksheet equals the bracket formula for all real x in [100000,1e12] (z3, LRA); figure_tax maps each status to its schedule on the proper side of 100000 (QSS=MFJ); monotonicity/slope lemmas on the spec. All real amounts, not sampled dollars.',
